@@ -541,6 +541,10 @@ func c11Types(r *rep.Run, n *int64) {
 				cfg := eval.NewConfig()
 				cfg.VariableKeyMap["v"] = key
 				cfg.VariableKeyMap["w"] = 2
+				// registered but never bound (more names than bindings)
+				cfg.VariableKeyMap["unbound1"] = 3
+				cfg.VariableKeyMap["unbound2"] = 4
+				cfg.VariableKeyMap["unbound3"] = 5
 				if undef {
 					cfg = eval.NewConfig(eval.EnableUndefinedVariable)
 				}
